@@ -48,7 +48,16 @@ func c11Configs() []*world.Config {
 		world.StructCfg(2, []uint8{0, 1, 0, 0}, B, "big"),
 		// branch factor 4: leaves with several entries whose slices have spare capacity after late inserts
 		world.UintCfg(4, ulist(1, 2, 3, 4, 5, 8, 9), 2, B, "big"),
+		// the custom-marshaler decoder (registered types): what it decodes into the cache is shared like any other node
+		c11Tagged(),
 	}
+}
+
+func c11Tagged() *world.Config {
+	c := world.UintCfg(2, urange(1, 5), 2, ref.FormatMarshaler, "big")
+	c.Tagged = true
+	c.Name = "tagged/" + c.Name
+	return c
 }
 
 // runThread executes a sequence on the thread's own tree and renders what it observed.
@@ -190,6 +199,7 @@ func c11Scenarios(thorough bool) []c11Scenario {
 		{0, []int{0, 1, 2, 3, 4}, []int{0, 1, 2}},       // uint {1..5}, height 2: deleting 2 merges the leaves [1] and [3] and the merged leaf stays in the tree
 		{4, []int{0, 1, 3, 4, 5, 6, 2}, []int{3, 1, 0}}, // bf 4, key 3 inserted last (its leaf's slices grow by append): deleting 4 merges [1 2 3] and [5]
 		{1, []int{0, 1, 2, 5, 6, 7}, []int{7, 3}},       // the same user-key tree: its top node holds only the maximum key 80 (right link nil); deleting 80 makes the cached child the top node; 40 goes in below it
+		{5, []int{0, 1, 3, 4}, []int{0, 2}},             // tagged marshaler with registered types: point operations on trees whose nodes were decoded into the cache
 	}
 	for pi, pl := range plans {
 		cfg := c11Configs()[pl.cfg]
@@ -216,6 +226,9 @@ func c11Scenarios(thorough bool) []c11Scenario {
 					if pi >= 5 && !(a.Kind == "del" || a.Kind == "ins" || b.Kind == "del" || b.Kind == "ins") {
 						continue
 					}
+					if pl.cfg == 5 && (capt == "clone" || a.Kind == "iter" || b.Kind == "iter" || a.Kind == "load" || b.Kind == "load" || a.Kind == "clone" || b.Kind == "clone" || a.Kind == "persist" || b.Kind == "persist") {
+						continue // the decoder is what is new here: loads through the warm and the cold cache, point operations
+					}
 					if pi == 3 && (capt == "coldload" || a.Kind == "iter" || b.Kind == "iter" || a.Kind == "load" || b.Kind == "load" || a.Kind == "clone" || b.Kind == "clone" || a.Kind == "persist" || b.Kind == "persist") {
 						continue // struct keys: the point operations (each compares keys through the marshaler)
 					}
@@ -224,7 +237,7 @@ func c11Scenarios(thorough bool) []c11Scenario {
 			}
 		}
 		// two modifications in a row by one thread (the second one edits what the first one built) against a reader
-		if pi >= 4 {
+		if pi >= 4 && pl.cfg != 5 {
 			var muts []tOp
 			for _, k := range pl.keys {
 				muts = append(muts, tOp{"ins", k, 1}, tOp{"del", k, 0})
